@@ -165,6 +165,12 @@ def oracle_nnls(ck, tier, deep):
             if dev > 1e-8 or A.min() < 0:
                 ck.violation(dict(site="daun", clause="nnls-homogeneity"), dict(degree=degree, lam=lam, P=P.tolist()),
                              f"daun reg='nonneg': T(λP) != λT(P) (rel {dev:.3g}) or negative output {A.min():.3g}")
+            # the pixel size scales the non-negative solution like every other inverse transform: T(P, dr) = T(P, 1)/dr — also through Transform
+            drv = float(rng.choice([0.25, 0.5, 2.0, 2.5]))
+            Ad = quiet(abel.daun.daun_transform, P, degree=degree, reg="nonneg", dr=drv)
+            if np.abs(Ad * drv - A).max() > 1e-10 * max(1e-300, np.abs(A).max()):
+                ck.violation(dict(site="daun", clause="nnls-dr-scaling"), dict(degree=degree, dr=drv, P=P.tolist()),
+                             f"daun reg='nonneg', dr={drv}: result is not (1/dr) x the dr=1 result (rel {np.abs(Ad * drv - A).max() / (np.abs(A).max() + 1e-300):.3g})")
             # detector counts: an integer image is transformed as its float copy
             Pi = np.round(np.abs(P) * 50).astype([np.int64, np.int32, np.uint16][int(rng.integers(0, 3))])
             Ci, Cf = quiet(abel.daun.daun_transform, Pi, degree=degree, reg="nonneg"), quiet(abel.daun.daun_transform, Pi.astype(float), degree=degree, reg="nonneg")
@@ -190,6 +196,31 @@ def oracle_nnls(ck, tier, deep):
             if dev > 1e-8:
                 ck.violation(dict(site="rbasex", clause="nnls-homogeneity"), dict(order=order, lam=lam, n=n, image=im.tolist()),
                              f"rbasex reg='pos': T(λ IM) != λ T(IM) (rel {dev:.3g})")
+
+
+def oracle_units(ck, tier, deep):
+    """the unit of length is the caller's: the same profile on an explicit radial grid given in pixels, micrometres or metres is the same
+    transform, scaled by the unit (forward) or its inverse — for uniform and non-uniform grids alike (a grid is not "uniform" because
+    its spacings differ by less than some absolute amount)"""
+    import abel
+    rng = np.random.default_rng(seed() + 4404)
+    for it in range(6 if not deep else 40):
+        n = int(rng.choice([31, 61, 101]))
+        i = np.arange(n, dtype=float)
+        grids = {"uniform": i * 0.7, "stretched": i * (1 + 0.004 * i), "quadratic": 0.5 * i + 0.01 * i ** 2}
+        f = np.exp(-(i / n * 3) ** 2)[None, :] * np.array([[1.0], [0.3]])
+        for gname, r in grids.items():
+            for direction in ("forward", "inverse"):
+                ref = quiet(abel.direct.direct_transform, f, r=r, direction=direction, backend="python")
+                for unit in (1e-6, 1e-3, 1e3):
+                    ck.count(("S.units", gname, direction, unit), suite="S.linearity")
+                    got = quiet(abel.direct.direct_transform, f, r=r * unit, direction=direction, backend="python")
+                    want = ref * unit if direction == "forward" else ref / unit
+                    dev = np.abs(got - want).max() / (np.abs(want).max() + 1e-300)
+                    if not dev <= 1e-9:
+                        ck.violation(dict(site="direct", clause="length-unit", direction=direction), dict(grid=gname, n=n, unit=unit, direction=direction),
+                                     f"direct {direction} on the {gname} grid given in units of {unit:g}: result is not the pixel-unit result "
+                                     f"{'times' if direction == 'forward' else 'divided by'} the unit (rel {dev:.3g})")
 
 
 def oracle_tools(ck, tier, deep):
@@ -376,6 +407,7 @@ def run(tier):
     oracle_methods(ck, tier, deep or bool(ck.broken))
     oracle_nnls(ck, tier, deep)
     oracle_tools(ck, tier, deep)
+    oracle_units(ck, tier, deep)
     return ck.finish()
 
 
